@@ -373,6 +373,9 @@ func genScen(r *gen.Rand) *scen {
 		}
 		if r.Chance(1, 10) {
 			w.NoCache = true
+			if r.Bool() {
+				w.CC = ccSpell(r, "no-cache", false)
+			}
 		}
 		if cf.Next && r.Chance(1, 4) {
 			w.Skip = true
